@@ -25,6 +25,7 @@ import (
 	"github.com/hashicorp/yamux"
 	"go.temporal.io/server/common/log"
 
+	"github.com/temporalio/s2s-proxy/config"
 	vrt "github.com/temporalio/s2s-proxy/internal/verifrt"
 )
 
@@ -91,6 +92,72 @@ func (p *vfConnProvider) NewConnection() (net.Conn, error) {
 func (p *vfConnProvider) CloseCh() <-chan struct{} { return alwaysClosedCh }
 func (p *vfConnProvider) Address() string          { return "verif-pipe" }
 
+// vfFakeNet is the in-memory network behind the real establisher / receiver connection providers (rewriter
+// rule "net": net.DialTimeout and net.Listen of establisher.go / receiver.go come here). A dial or an accept
+// blocks until the harness offers a connection or an error; a dial also gives up after its timeout, as the
+// real one does; a closed listener fails its pending accept.
+type vfFakeNet struct {
+	offers     chan vfOffer
+	waiting    bool
+	lastFailed bool // a dial failed and the next one has not started: the establisher is in its back-off
+	dials      int
+	lnClosed   chan struct{}
+	listening  bool
+	// afterAccept runs in the accepting goroutine between the listener handing over a connection and Accept
+	// returning (micro level: a scheduling point)
+	afterAccept func()
+}
+
+func vfNewFakeNet() *vfFakeNet {
+	return &vfFakeNet{offers: make(chan vfOffer), lnClosed: make(chan struct{})}
+}
+
+func (n *vfFakeNet) dial(network, addr string, timeout time.Duration) (net.Conn, error) {
+	n.dials++
+	n.waiting, n.lastFailed = true, false
+	defer func() { n.waiting = false }()
+	select {
+	case o := <-n.offers:
+		n.lastFailed = o.err != nil
+		return o.conn, o.err
+	case <-time.After(timeout):
+		n.lastFailed = true
+		return nil, errors.New("verif: dial timed out")
+	}
+}
+
+func (n *vfFakeNet) listen(network, addr string) (net.Listener, error) {
+	n.listening = true
+	return &vfFakeListener{n}, nil
+}
+
+type vfFakeListener struct{ n *vfFakeNet }
+
+func (l *vfFakeListener) Accept() (net.Conn, error) {
+	l.n.waiting = true
+	defer func() { l.n.waiting = false }()
+	select {
+	case o := <-l.n.offers:
+		if l.n.afterAccept != nil {
+			l.n.waiting = false
+			l.n.afterAccept()
+		}
+		return o.conn, o.err
+	case <-l.n.lnClosed:
+		return nil, net.ErrClosed
+	}
+}
+
+func (l *vfFakeListener) Close() error {
+	select {
+	case <-l.n.lnClosed:
+	default:
+		close(l.n.lnClosed)
+	}
+	return nil
+}
+func (l *vfFakeListener) Addr() net.Addr { return vfAddr("verif-listener") }
+
 type vfPeer struct {
 	conn   net.Conn
 	sess   *yamux.Session
@@ -102,6 +169,10 @@ type vfPoolScenario struct {
 	Size     int    `json:"size"`
 	Role     string `json:"role"` // establisher (proxy is yamux client) | receiver (proxy is yamux server)
 	MaxDepth int    `json:"max_depth"`
+	// Real: the provider is built by the real NewMuxEstablisherProvider / NewMuxReceiverProvider (their
+	// connection providers, retry policy and yamux configuration) over the in-memory network; otherwise
+	// NewMuxProvider over a harness connProvider.
+	Real bool `json:"real,omitempty"`
 }
 
 type vfPoolJob struct {
@@ -128,6 +199,7 @@ type vfPoolExec struct {
 	sc          vfPoolScenario
 	mm          *multiMuxManager
 	cp          *vfConnProvider
+	fn          *vfFakeNet
 	cancel      context.CancelFunc
 	conns       []*vfTrackedConn
 	sessions    []*yamux.Session // every yamux session the proxy side created
@@ -162,6 +234,16 @@ func vfNewPoolExec(sc vfPoolScenario) *vfPoolExec {
 	e.cancel = cancel
 	logger := log.NewNoopLogger()
 	builder := func(add AddNewMux, ctx context.Context) (MuxProvider, error) {
+		if sc.Real {
+			e.fn = vfNewFakeNet()
+			vrt.SetFakeNet(&vrt.FakeNet{Dial: e.fn.dial, Listen: e.fn.listen})
+			setting := config.TCPTLSInfo{ConnectionString: "verif-peer:7233"}
+			labels := []string{"verif-peer:7233", "mux", "real"}
+			if sc.Role == "receiver" {
+				return NewMuxReceiverProvider(ctx, "verif", add, int64(sc.Size), setting, labels, logger)
+			}
+			return NewMuxEstablisherProvider(ctx, "verif", add, int64(sc.Size), setting, labels, logger)
+		}
 		e.cp = &vfConnProvider{lifetime: ctx, offers: make(chan vfOffer)}
 		sessionFn := func(conn net.Conn) (*yamux.Session, error) {
 			if e.failSession {
@@ -192,11 +274,38 @@ func vfNewPoolExec(sc vfPoolScenario) *vfPoolExec {
 	return e
 }
 
+func (e *vfPoolExec) waiting() bool {
+	if e.fn != nil {
+		return e.fn.waiting
+	}
+	return e.cp.waiting
+}
+
+func (e *vfPoolExec) offers() chan vfOffer {
+	if e.fn != nil {
+		return e.fn.offers
+	}
+	return e.cp.offers
+}
+
+// settle (real establisher only): after a failed dial the provider sleeps its back-off (which carries random
+// jitter) before dialling again; states are taken when it is dialling again, so that what is enabled does not
+// depend on the jitter.
+func (e *vfPoolExec) settle() {
+	if e.fn == nil || e.sc.Role == "receiver" {
+		return
+	}
+	for i := 0; i < 120 && e.fn.lastFailed && !e.fn.waiting && !e.cancelled; i++ {
+		time.Sleep(time.Second)
+		synctest.Wait()
+	}
+}
+
 // offer hands the provider (which must be waiting in NewConnection) a connection of the given kind.
 func (e *vfPoolExec) offer(kind string) {
 	if kind == "dialError" {
 		e.logf("connection attempt fails")
-		e.cp.offers <- vfOffer{err: errors.New("verif: dial failed")}
+		e.offers() <- vfOffer{err: errors.New("verif: dial failed")}
 		return
 	}
 	a, b := net.Pipe()
@@ -232,7 +341,7 @@ func (e *vfPoolExec) offer(kind string) {
 	}
 	e.peers = append(e.peers, p)
 	e.logf("peer offers connection #%d (%s)", tc.id, kind)
-	e.cp.offers <- vfOffer{conn: tc}
+	e.offers() <- vfOffer{conn: tc}
 }
 
 func (e *vfPoolExec) liveIDs() []string {
@@ -247,8 +356,12 @@ func (e *vfPoolExec) liveIDs() []string {
 
 func (e *vfPoolExec) enabled() []string {
 	var out []string
-	if e.cp.waiting && !e.cancelled {
-		out = append(out, "connect", "dialError", "sessionFnError", "silentPeer", "peerEOF", "writeEOF")
+	if e.waiting() && !e.cancelled {
+		out = append(out, "connect", "dialError")
+		if !e.sc.Real {
+			out = append(out, "sessionFnError")
+		}
+		out = append(out, "silentPeer", "peerEOF", "writeEOF")
 	}
 	for i, p := range e.peers {
 		if p.kind == "connect" && !p.killed && !e.conns[i].closed {
@@ -271,7 +384,7 @@ func (e *vfPoolExec) apply(a string) error {
 	f := strings.SplitN(a, ":", 2)
 	switch f[0] {
 	case "connect", "dialError", "sessionFnError", "silentPeer", "peerEOF", "writeEOF":
-		if !e.cp.waiting {
+		if !e.waiting() {
 			return fmt.Errorf("action %s not enabled (provider is not waiting for a connection)", a)
 		}
 		e.offer(f[0])
@@ -328,7 +441,7 @@ func (e *vfPoolExec) invariant() {
 
 func (e *vfPoolExec) key() string {
 	var sb strings.Builder
-	fmt.Fprintf(&sb, "t=%d cancelled=%v waiting=%v avail=%v live=%v closed=%v fail=%v|", e.now, e.cancelled, e.cp.waiting, e.mm.CanAcceptConnections(), e.liveIDs(), e.mm.IsClosed(), e.failSession)
+	fmt.Fprintf(&sb, "t=%d cancelled=%v waiting=%v avail=%v live=%v closed=%v fail=%v|", e.now, e.cancelled, e.waiting(), e.mm.CanAcceptConnections(), e.liveIDs(), e.mm.IsClosed(), e.failSession)
 	for i, c := range e.conns {
 		fmt.Fprintf(&sb, "%d:%s/%v/%v,", i, e.peers[i].kind, c.closed, e.peers[i].killed)
 	}
@@ -349,7 +462,7 @@ func (e *vfPoolExec) healing() {
 		if len(e.mm.GetMuxConnections()) == e.sc.Size {
 			break
 		}
-		if e.cp.waiting {
+		if e.waiting() {
 			e.offer("connect")
 			continue
 		}
@@ -358,13 +471,13 @@ func (e *vfPoolExec) healing() {
 	synctest.Wait()
 	n := len(e.mm.GetMuxConnections())
 	if n != e.sc.Size {
-		e.violate("healing/pool-does-not-return-to-full-strength", fmt.Sprintf("with the peer reachable the pool stays at %d of %d sessions (provider waiting for a connection: %v, permits available: %v)", n, e.sc.Size, e.cp.waiting, e.mm.CanAcceptConnections()))
+		e.violate("healing/pool-does-not-return-to-full-strength", fmt.Sprintf("with the peer reachable the pool stays at %d of %d sessions (provider waiting for a connection: %v, permits available: %v)", n, e.sc.Size, e.waiting(), e.mm.CanAcceptConnections()))
 		return
 	}
 	if e.mm.CanAcceptConnections() {
 		e.violate("limit/permit-minted", fmt.Sprintf("pool is full (%d sessions) but still reports free slots", n))
 	}
-	if e.cp.waiting {
+	if e.waiting() {
 		e.violate("limit/permit-minted", fmt.Sprintf("pool is full (%d sessions) but the provider asks for another connection", n))
 	}
 	e.invariant()
@@ -417,6 +530,7 @@ func vfRunPool(t *testing.T, job *vfPoolJob) (out vfPoolOut) {
 					break
 				}
 				synctest.Wait()
+				e.settle()
 				e.invariant()
 			}
 			if out.Err == "" {
@@ -440,6 +554,7 @@ func vfRunPool(t *testing.T, job *vfPoolJob) (out vfPoolOut) {
 			}
 			time.Sleep(time.Minute + time.Second)
 			synctest.Wait()
+			vrt.SetFakeNet(nil)
 			out.Viol = e.viol
 			out.Outcome = fmt.Sprintf("conns=%d sessions=%d", len(e.conns), len(e.sessions))
 			if job.Trace || len(e.viol) > 0 {
@@ -497,9 +612,17 @@ func TestVerifC10(t *testing.T) {
 	var harnessErrs []string
 	var summary []string
 	outcomes := map[string]bool{}
-	for _, role := range []string{"establisher", "receiver"} {
+	type fam struct {
+		role string
+		real bool
+	}
+	for _, fm := range []fam{{"establisher", false}, {"receiver", false}, {"establisher", true}, {"receiver", true}} {
+		role := fm.role
+		if fm.real {
+			role += "(real provider)"
+		}
 		for _, size := range sizes {
-			sc := vfPoolScenario{Size: size, Role: role, MaxDepth: depth}
+			sc := vfPoolScenario{Size: size, Role: fm.role, MaxDepth: depth, Real: fm.real}
 			type node struct {
 				path    []string
 				enabled []string
@@ -582,5 +705,5 @@ func TestVerifC10(t *testing.T) {
 	res.Set("alphabet", "connect (responsive yamux peer), dialError, sessionFnError, silentPeer (first ping times out after 10 s virtual), peerEOF (peer closed before the ping), writeEOF (writes fail with io.EOF: the remote-immediately-disconnected branch), killPeer(i), localClose(id), cancelLifetime, adv (11 s); after every path: healing phase (good connections offered until the pool is full) and shutdown phase")
 	res.Set("explanation", "every transition executes the real muxProvider.Start loop, multiMuxManager and ManagedMuxSession with real yamux sessions over net.Pipe in a synctest bubble; the invariant is checked in every state, the healing and shutdown contracts from every state; no separate model")
 	res.Sample(summary)
-	res.Assume("connections come from a harness connProvider (the TCP dial/accept code of establisher.go/receiver.go, incl. backoff.ThrottleRetry, is not exercised); yamux and gRPC internals run free between actions")
+	res.Assume("two provider families: NewMuxProvider over a harness connProvider (incl. a failing yamux setup), and the real NewMuxEstablisherProvider / NewMuxReceiverProvider (their connection providers, backoff.ThrottleRetry, the listener-closing goroutine, their yamux configuration) over an in-memory network that replaces net.DialTimeout / net.Listen (rewriter rule net); the kernel's TCP stack and TLS wrapping are not exercised; yamux and gRPC internals run free between actions")
 }
